@@ -8,6 +8,7 @@ contract("helpers.filter_citations",
     ghost={"fidx": "seq[int]", "finv": "seq[int]"},
     ghost_init={"g0": "len(ghost.fidx) == 1 and ghost.fidx[0] == 0 and len(ghost.finv) == 1 and ghost.finv[0] == 0"},
     ensures={
+        "notnone": "result is not None",
         "nonempty_iff": "(len(result) == 0) == (len(citations) == 0)",
         # nothing invented: every returned citation is one of the given objects
         "subseq": "forall(lambda j: implies(0 <= j and j < len(result), exists(lambda i: 0 <= i and i < len(citations) and result[j] is citations[i])))",
